@@ -1,33 +1,33 @@
 /-
   C06 helper lemmas, part 3: the ALL-mode outcome of a loader determines the
-  outcome of the DISABLE and FIRST loaders (`Sim`), unless ALL escapes.
+  outcome of the DISABLE and FIRST loaders (`AllSim`), unless ALL escapes.
 -/
 import AdaptixProofs.Lemmas.MorphModesFuel
 
 namespace Adaptix.Morph
 open Adaptix.Py
 
-/-- `Sim m om oa`: what the ALL-mode outcome `oa` forces the outcome `om` of mode `m`
+/-- `AllSim m om oa`: what the ALL-mode outcome `oa` forces the outcome `om` of mode `m`
     to be when both are run with the same fuel (either may have run out of fuel):
     ALL succeeds with `v` → mode `m` returns the same `v`; ALL raises the LoadError `E` →
     mode `m` raises a LoadError `e` each leaf of which corresponds to a leaf of `E`.
     An ALL-mode non-LoadError (`escape`) forces nothing: the sequential modes may not even
     have reached the offending element. -/
-def Sim {α : Type} (m : DebugTrail) (om oa : Outcome α) : Prop :=
+def AllSim {α : Type} (m : DebugTrail) (om oa : Outcome α) : Prop :=
   match oa with
   | .ok v => om = .ok v ∨ om = .diverge
   | .err E => om = .diverge ∨ ∃ e, om = .err e ∧ ErrCorr m e E
   | .escape _ => True
   | .diverge => True
 
-theorem modes_sim_refl {α : Type} (m : DebugTrail) (o : Outcome α) : Sim m o o := by
+theorem modes_sim_refl {α : Type} (m : DebugTrail) (o : Outcome α) : AllSim m o o := by
   cases o with
   | ok v => exact Or.inl rfl
   | err e => exact Or.inr ⟨e, rfl, modes_errCorr_refl m e⟩
   | escape e => trivial
   | diverge => trivial
 
-theorem modes_sim_diverge {α : Type} (m : DebugTrail) (o : Outcome α) : Sim m .diverge o := by
+theorem modes_sim_diverge {α : Type} (m : DebugTrail) (o : Outcome α) : AllSim m .diverge o := by
   cases o with
   | ok v => exact Or.inr rfl
   | err e => exact Or.inl rfl
@@ -35,7 +35,7 @@ theorem modes_sim_diverge {α : Type} (m : DebugTrail) (o : Outcome α) : Sim m 
   | diverge => trivial
 
 theorem modes_sim_bindO {α β : Type} {m : DebugTrail} {o o' : Outcome α} {k k' : α → Outcome β}
-    (h : Sim m o o') (hk : ∀ x, Sim m (k x) (k' x)) : Sim m (bindO o k) (bindO o' k') := by
+    (h : AllSim m o o') (hk : ∀ x, AllSim m (k x) (k' x)) : AllSim m (bindO o k) (bindO o' k') := by
   cases o' with
   | ok v =>
     rcases h with h | h
@@ -50,7 +50,7 @@ theorem modes_sim_bindO {α β : Type} {m : DebugTrail} {o o' : Outcome α} {k k
 
 /-- the sequential fold of mode `m` against the ALL sweep of pointwise related items -/
 theorem modes_sim_seq_aux {m : DebugTrail} (hm : m ≠ .all) {a b : List (Option TrailEl × Outcome Val)}
-    (h : ItemsRel (Sim m) a b) :
+    (h : ItemsRel (AllSim m) a b) :
     (sweepAll b).diverged = false → (sweepAll b).unexpected = false →
       seqMode m a = .diverge ∨
       ((sweepAll b).errs = [] ∧ seqMode m a = .ok (sweepAll b).vals) ∨
@@ -92,9 +92,9 @@ theorem modes_sim_seq_aux {m : DebugTrail} (hm : m ≠ .all) {a b : List (Option
     | diverge => simp [sweepAll] at hd
 
 theorem modes_sim_seq {m : DebugTrail} (hm : m ≠ .all) {a b : List (Option TrailEl × Outcome Val)}
-    (h : ItemsRel (Sim m) a b) : Sim m (seqMode m a) (seqMode .all b) := by
+    (h : ItemsRel (AllSim m) a b) : AllSim m (seqMode m a) (seqMode .all b) := by
   have aux := modes_sim_seq_aux hm h
-  show Sim m (seqMode m a) (sweepAll b).finish
+  show AllSim m (seqMode m a) (sweepAll b).finish
   unfold Sweep.finish
   by_cases hd : (sweepAll b).diverged = true
   · simp only [hd, if_true]; trivial
@@ -118,8 +118,8 @@ theorem modes_sim_seq {m : DebugTrail} (hm : m ≠ .all) {a b : List (Option Tra
 /-! ### iterables, tuples -/
 
 theorem modes_sim_loadIter {m : DebugTrail} (hm : m ≠ .all) (s : Bool) (f : Factory)
-    (e e' : Val → Outcome Val) (d : Val) (h : ∀ x, Sim m (e x) (e' x)) :
-    Sim m (loadIter ⟨m, s⟩ f e d) (loadIter ⟨.all, s⟩ f e' d) := by
+    (e e' : Val → Outcome Val) (d : Val) (h : ∀ x, AllSim m (e x) (e' x)) :
+    AllSim m (loadIter ⟨m, s⟩ f e d) (loadIter ⟨.all, s⟩ f e' d) := by
   unfold loadIter strictExcluded
   simp only
   split
@@ -136,7 +136,7 @@ theorem modes_leafNodes_leaf (c : String) (hc : c ≠ "AggregateLoadError") (d :
 
 theorem modes_sim_tupleShown (m : DebugTrail) (c : String) (d : Val) (xs : List Val)
     (hx : d.iterElems = some xs) (hc : c = "ExtraItemsLoadError" ∨ c = "NoRequiredItemsLoadError") :
-    Sim m (Outcome.err (α := Val) (LErr.leaf c (match m with | .disable => d | _ => Val.tuple xs)))
+    AllSim m (Outcome.err (α := Val) (LErr.leaf c (match m with | .disable => d | _ => Val.tuple xs)))
       (.err (LErr.leaf c (Val.tuple xs))) := by
   have hne : c ≠ "AggregateLoadError" := by rcases hc with rfl | rfl <;> decide
   refine Or.inr ⟨_, rfl, ?_⟩
@@ -152,8 +152,8 @@ theorem modes_sim_tupleShown (m : DebugTrail) (c : String) (d : Val) (xs : List 
   | all => exact modes_errCorr_refl _ _
 
 theorem modes_sim_loadTuple {m : DebugTrail} (hm : m ≠ .all) (s : Bool) (F G : Ty → Val → Outcome Val)
-    (elems : List Ty) (d : Val) (h : ∀ t x, Sim m (F t x) (G t x)) :
-    Sim m (loadTuple ⟨m, s⟩ (elems.map F) d) (loadTuple ⟨.all, s⟩ (elems.map G) d) := by
+    (elems : List Ty) (d : Val) (h : ∀ t x, AllSim m (F t x) (G t x)) :
+    AllSim m (loadTuple ⟨m, s⟩ (elems.map F) d) (loadTuple ⟨.all, s⟩ (elems.map G) d) := by
   unfold loadTuple strictExcluded
   simp only [List.length_map]
   split
@@ -204,8 +204,8 @@ theorem modes_sweep_dict_swap (k v : Val → Outcome Val) (kvs : List (Val × Va
       simp [sweepAll, ih1, ih2, ih3, swapPairs] <;> (try exact ih4) <;> (try grind)
 
 theorem modes_sim_loadDict_first (s : Bool) (k v k' v' : Val → Outcome Val) (d : Val)
-    (hk : ∀ x, Sim .first (k x) (k' x)) (hv : ∀ x, Sim .first (v x) (v' x)) :
-    Sim .first (loadDict ⟨.first, s⟩ k v d) (loadDict ⟨.all, s⟩ k' v' d) := by
+    (hk : ∀ x, AllSim .first (k x) (k' x)) (hv : ∀ x, AllSim .first (v x) (v' x)) :
+    AllSim .first (loadDict ⟨.first, s⟩ k v d) (loadDict ⟨.all, s⟩ k' v' d) := by
   rw [modes_loadDict_eq, modes_loadDict_eq]
   split
   · exact modes_sim_bindO
@@ -214,14 +214,14 @@ theorem modes_sim_loadDict_first (s : Bool) (k v k' v' : Val → Outcome Val) (d
   · exact modes_sim_refl _ _
 
 theorem modes_sim_loadDict_disable (s : Bool) (k v k' v' : Val → Outcome Val) (d : Val)
-    (hk : ∀ x, Sim .disable (k x) (k' x)) (hv : ∀ x, Sim .disable (v x) (v' x)) :
-    Sim .disable (loadDict ⟨.disable, s⟩ k v d) (loadDict ⟨.all, s⟩ k' v' d) := by
+    (hk : ∀ x, AllSim .disable (k x) (k' x)) (hv : ∀ x, AllSim .disable (v x) (v' x)) :
+    AllSim .disable (loadDict ⟨.disable, s⟩ k v d) (loadDict ⟨.all, s⟩ k' v' d) := by
   rw [modes_loadDict_eq, modes_loadDict_eq]
   split
   · rename_i kvs
-    show Sim .disable (bindO (seqMode .disable (dictItems true k v kvs)) fun flat => buildDict true flat [])
+    show AllSim .disable (bindO (seqMode .disable (dictItems true k v kvs)) fun flat => buildDict true flat [])
       (bindO (sweepAll (dictItems false k' v' kvs)).finish fun flat => buildDict false flat [])
-    have hgen : Sim .disable (seqMode .disable (dictItems true k v kvs))
+    have hgen : AllSim .disable (seqMode .disable (dictItems true k v kvs))
         (sweepAll (dictItems true k' v' kvs)).finish :=
       modes_sim_seq (by decide) (modes_itemsRel_dict _ _ _ _ _ _ fun p _ => ⟨hk p.1, hv p.2⟩)
     obtain ⟨h1, h2, h3, h4⟩ := modes_sweep_dict_swap k' v' kvs
@@ -268,8 +268,8 @@ theorem modes_sim_loadDict_disable (s : Bool) (k v k' v' : Val → Outcome Val) 
   · exact modes_sim_refl _ _
 
 theorem modes_sim_loadDict {m : DebugTrail} (hm : m ≠ .all) (s : Bool) (k v k' v' : Val → Outcome Val)
-    (d : Val) (hk : ∀ x, Sim m (k x) (k' x)) (hv : ∀ x, Sim m (v x) (v' x)) :
-    Sim m (loadDict ⟨m, s⟩ k v d) (loadDict ⟨.all, s⟩ k' v' d) := by
+    (d : Val) (hk : ∀ x, AllSim m (k x) (k' x)) (hv : ∀ x, AllSim m (v x) (v' x)) :
+    AllSim m (loadDict ⟨m, s⟩ k v d) (loadDict ⟨.all, s⟩ k' v' d) := by
   cases m with
   | disable => exact modes_sim_loadDict_disable s k v k' v' d hk hv
   | first => exact modes_sim_loadDict_first s k v k' v' d hk hv
@@ -304,8 +304,8 @@ theorem modes_errCorr_bare (Es : List LErr) : ErrCorr .disable LErr.bare (LErr.u
   subst hl
   exact ⟨LErr.union Es, by rw [modes_leafNodes_union]; simp, Corr.bareUnion _ _ _⟩
 
-theorem modes_sim_general_disable {os os' : List (Outcome Val)} (h : All₂ (Sim .disable) os os')
-    (errs : List LErr) : Sim .disable (generalUnion .disable os) (unionAll os' errs false) := by
+theorem modes_sim_general_disable {os os' : List (Outcome Val)} (h : Pointwise₂ (AllSim .disable) os os')
+    (errs : List LErr) : AllSim .disable (generalUnion .disable os) (unionAll os' errs false) := by
   induction h generalizing errs with
   | nil => exact Or.inr ⟨_, rfl, modes_errCorr_bare _⟩
   | @cons o o' as bs ho _ ih =>
@@ -323,9 +323,9 @@ theorem modes_sim_general_disable {os os' : List (Outcome Val)} (h : All₂ (Sim
       rcases modes_unionAll_true bs errs with h1 | h1 <;> rw [h1] <;> trivial
     | diverge => trivial
 
-theorem modes_sim_general_first {os os' : List (Outcome Val)} (h : All₂ (Sim .first) os os')
+theorem modes_sim_general_first {os os' : List (Outcome Val)} (h : Pointwise₂ (AllSim .first) os os')
     (pre errs : List LErr) :
-    Sim .first (unionFirstResult pre os) (unionAll os' errs false) := by
+    AllSim .first (unionFirstResult pre os) (unionAll os' errs false) := by
   induction h generalizing pre errs with
   | nil => exact Or.inr ⟨_, rfl, modes_errCorr_union _ _ _⟩
   | @cons o o' as bs ho _ ih =>
@@ -344,14 +344,14 @@ theorem modes_sim_general_first {os os' : List (Outcome Val)} (h : All₂ (Sim .
     | diverge => trivial
 
 theorem modes_sim_generalUnion {m : DebugTrail} (hm : m ≠ .all) {os os' : List (Outcome Val)}
-    (h : All₂ (Sim m) os os') : Sim m (generalUnion m os) (generalUnion .all os') := by
+    (h : Pointwise₂ (AllSim m) os os') : AllSim m (generalUnion m os) (generalUnion .all os') := by
   cases m with
   | disable => exact modes_sim_general_disable h []
   | first => exact modes_sim_general_first h [] []
   | all => exact absurd rfl hm
 
 theorem modes_sim_wrapOptional {m : DebugTrail} (hm : m ≠ .all) (d : Val) {o o' : Outcome Val}
-    (h : Sim m o o') : Sim m (wrapOptional m d o) (wrapOptional .all d o') := by
+    (h : AllSim m o o') : AllSim m (wrapOptional m d o) (wrapOptional .all d o') := by
   cases o' with
   | ok v =>
     rcases h with h | h <;> subst h
@@ -373,8 +373,8 @@ theorem modes_sim_wrapOptional {m : DebugTrail} (hm : m ≠ .all) (d : Val) {o o
   | diverge => trivial
 
 theorem modes_sim_loadUnion {m : DebugTrail} (hm : m ≠ .all) (s : Bool) (cases : List Ty)
-    (ld ld' : Ty → Val → Outcome Val) (d : Val) (h : ∀ c x, Sim m (ld c x) (ld' c x)) :
-    Sim m (loadUnion ⟨m, s⟩ cases ld d) (loadUnion ⟨.all, s⟩ cases ld' d) := by
+    (ld ld' : Ty → Val → Outcome Val) (d : Val) (h : ∀ c x, AllSim m (ld c x) (ld' c x)) :
+    AllSim m (loadUnion ⟨m, s⟩ cases ld d) (loadUnion ⟨.all, s⟩ cases ld' d) := by
   rw [modes_loadUnion_eq, modes_loadUnion_eq]
   cases singleOptional? cases with
   | some other =>
@@ -388,15 +388,15 @@ theorem modes_sim_loadUnion {m : DebugTrail} (hm : m ≠ .all) (s : Bool) (cases
 
 theorem modes_sim_loadModel {m : DebugTrail} (hm : m ≠ .all) (s : Bool) (cls : String)
     (fields : List Field) (fl fl' : Field → Val → Outcome Val) (d : Val)
-    (h : ∀ f x, Sim m (fl f x) (fl' f x)) :
-    Sim m (loadModel ⟨m, s⟩ cls fields fl d) (loadModel ⟨.all, s⟩ cls fields fl' d) := by
+    (h : ∀ f x, AllSim m (fl f x) (fl' f x)) :
+    AllSim m (loadModel ⟨m, s⟩ cls fields fl d) (loadModel ⟨.all, s⟩ cls fields fl' d) := by
   unfold loadModel
   split
   · exact modes_sim_bindO
       (modes_sim_seq hm (modes_itemsRel_model _ _ _ _ (fun _ => modes_sim_refl _ _) (modes_sim_refl _ _)
         _ _ fun f _ v _ => h f v))
       fun _ => modes_sim_refl _ _
-  · have : Sim m (Outcome.err (α := Val) (LErr.leaf "TypeLoadError" d))
+  · have : AllSim m (Outcome.err (α := Val) (LErr.leaf "TypeLoadError" d))
         (.err (LErr.agg [LErr.leaf "TypeLoadError" d])) :=
       Or.inr ⟨_, rfl, modes_errCorr_agg (by simp) (modes_errCorr_refl _ _)⟩
     cases m with
@@ -407,9 +407,9 @@ theorem modes_sim_loadModel {m : DebugTrail} (hm : m ≠ .all) (s : Bool) (cls :
 /-! ### the simulation -/
 
 /-- **ALL determines the sequential modes**: at equal fuel, the outcome of mode `m`
-    (DISABLE or FIRST) is `Sim`-related to the ALL-mode outcome, for every type and datum -/
+    (DISABLE or FIRST) is `AllSim`-related to the ALL-mode outcome, for every type and datum -/
 theorem modes_sim_load (W : World) {m : DebugTrail} (hm : m ≠ .all) (s : Bool) (n : Nat) :
-    ∀ (T : Ty) (d : Val), Sim m (load W ⟨m, s⟩ n T d) (load W ⟨.all, s⟩ n T d) := by
+    ∀ (T : Ty) (d : Val), AllSim m (load W ⟨m, s⟩ n T d) (load W ⟨.all, s⟩ n T d) := by
   induction n with
   | zero => intro T d; trivial
   | succ n ih =>
